@@ -107,6 +107,26 @@ def is_fresh(x):
     return True
 
 
+def lo_has(m, level, orient):
+    return level in m and orient in m[level]
+
+
+def lo_row(m, level):
+    return level in m
+
+
+def lo_get(m, level, orient):
+    return m[level][orient]
+
+
+def gheight(a):
+    return len(a)
+
+
+def gwidth(a):
+    return len(a[0]) if len(a) else 0
+
+
 def content(f):
     """Bytes of a file-like object / list (native twin of the ghost view)."""
     if hasattr(f, "getvalue"):
@@ -246,6 +266,7 @@ class Contract(object):
         self.trusted = g("trusted", None)  # reason string: contract assumed, body not verified
         self.ghost = {k: [_parse(x) for x in v] for k, v in g("ghost", {}).items()}
         self.str_domains = dict(g("str_domains", {}))
+        self.split_on = list(g("split_on", []))
         self.properties = g("properties", [])
 
     def resolve_classes(self):
